@@ -33,6 +33,11 @@ Cat == Catalogue(FMAXT) \o <<
   G("LineString", <<<<0, 1>>, <<3, 2>>, <<4, 4>>>>),
   G("LineString", <<<<1, 4>>, <<2, 1>>, <<6, 2>>>>),
   G("MultiLineString", <<<<<<0, 0>>, <<3, 1>>>>, <<<<4, 4>>, <<5, 1>>>>>>),
+  \* a ring of points one tick apart on the border of [1,7] x [1,7]: buffered by one tick their union encloses a hole, in
+  \* which box (3,3,5,5) and point (4,4) lie without touching anything
+  G("MultiPoint", [k \in 1..24 |-> CASE k <= 6 -> <<k, 1>> [] k <= 12 -> <<7, k - 6>> [] k <= 18 -> <<20 - k, 7>> [] OTHER -> <<1, 26 - k>>]),
+  G("Point", <<4, 4>>),
+  G("BoundingBox", <<3, 3, 5, 5>>),                              \* apart from box (0,0,2,2) on BOTH axes (a diagonal neighbour)
   G("BoundingBox", <<1, 2, 4, 2>>),                              \* a flat box (low = high): zero area, positive duration
   G("TimeInterval", <<6, 6>>),                                   \* a second zero-length interval, at another instant than <<3, 3>>
   G("Point", <<3, 2>>),
@@ -169,5 +174,12 @@ LawBracket == \A r \in Readings :
     /\ Inter1(A[2], B[2]) <= Inter1(A[1], B[1])
     /\ Len1(A[1]) + Len1(B[1]) <= 32000
 ASSUME BentLinesPresent == \E i \in 1..Len(Cat) : Cat[i].type = "LineString" /\ Len(Cat[i].coordinates) >= 3 /\ Bracketed(Cat[i], 1, 1)
+\* the catalogue has a ring of points enclosing a box and a point, separate from them although they overlap in time
+ASSUME RingPresent == \E i, j, k \in 1..Len(Cat) :
+    /\ Cat[i].type = "MultiPoint" /\ Cat[j].type = "BoundingBox" /\ Cat[k].type = "Point"
+    /\ Separate(Cat[i], Cat[j], 1, 1) /\ Separate(Cat[i], Cat[k], 1, 1)
+    /\ LET r == Bounds(Cat[i], FMAXT)  b == Cat[j].coordinates  p == Cat[k].coordinates
+       IN  r[1] < b[1] /\ b[3] < r[3] /\ r[2] < b[2] /\ b[4] < r[4] /\ r[1] < p[1] /\ p[1] < r[3] /\ r[2] < p[2] /\ p[2] < r[4]
+LawSeparateSym == Separate(g1, g2, c.tb, c.fb) = Separate(g2, g1, c.tb, c.fb)
 ExtentsInRange == \A r \in Readings, d \in Ds : TIoU(g1, g2, d, r)[2] <= 32767
 =============================================================================
